@@ -521,7 +521,7 @@ def rule_d(chk: Check, eng: Engine) -> None:
                     return False
         return True
 
-    def clean_value(f: FuncInfo, e: ast.AST) -> bool:
+    def clean_value(f: FuncInfo, e: ast.AST, depth: int = 0) -> bool:
         if f.fq in base_clean:
             return isinstance(e, ast.Name) and e.id in f.params()
         # self._initial_solutions.pop(0)
@@ -534,6 +534,10 @@ def rule_d(chk: Check, eng: Engine) -> None:
             for n in walk_local(f.node):
                 if isinstance(n, ast.For) and isinstance(n.target, ast.Name) and n.target.id == e.id:
                     return clean_iterable(f, n.iter)
+            # a local bound (only) to clean values: `tree = self._initial_solutions.pop(0)`
+            ds = [n.value for n in walk_local(f.node) if isinstance(n, ast.Assign) and len(n.targets) == 1 and isinstance(n.targets[0], ast.Name) and n.targets[0].id == e.id]
+            if ds and depth < 2 and e.id not in f.params() and all(not isinstance(d, ast.Name) and clean_value(f, d, depth + 1) for d in ds):
+                return True
         return False
 
     def attr_holds_clean(c: ClassInfo, attr: str) -> bool:
